@@ -614,7 +614,7 @@ def replay(rep):
         return 1 if fs else 0
     if rep.get("kind") == "handover":
         ls = [((a if isinstance(a, str) else tuple(a)), b) for a, b in rep["listeners_raw"]]
-        fs = handover_case(ls, rep["systemd"], rep["pidconf"])
+        fs = handover_case(ls, rep["systemd"], rep["pidconf"], rep.get("orphan", False))
         print("failures:", fs)
         return 1 if fs else 0
     cfg, real = rep["cfg"], rep["real"]
@@ -688,8 +688,10 @@ def reexec_child_env(listeners, systemd, pidfile=None):
         ga.os, gutil._setproctitle = saved
 
 
-def handover_case(listeners, systemd, pidconf):
-    """-> list of failures"""
+def handover_case(listeners, systemd, pidconf, orphan=False):
+    """-> list of failures.  orphan: the old master has ALREADY exited when the re-executed one reaches Arbiter.start() (TERM
+    to the old master right after USR2, a slow boot): getppid() is no longer GUNICORN_PID - the inherited listeners are adopted
+    all the same, and the first turn of the main loop promotes the master"""
     fails = []
     got = reexec_child_env(listeners, systemd)
     if got is None:
@@ -706,7 +708,10 @@ def handover_case(listeners, systemd, pidconf):
             fails.append("LISTEN_PID=%r is not the pid of the process that execs (61)" % cenv.get("LISTEN_PID"))
         cenv["LISTEN_PID"] = str(SELF)
     w = A.World2(workers=1, pidfile=("g.pid" if pidconf else None), binds=["127.0.0.1:9"], master_pid=parent,
-                 env=cenv, live=(parent,))
+                 env=cenv, live=(() if orphan else (parent,)))
+    if orphan:
+        w.live.discard(parent)
+        w.ppid = 1
     w._fdn = {fd: name for name, fd in listeners}
     if pidconf:
         with open(w.pidpath("g.pid"), "w") as fh:
@@ -720,15 +725,16 @@ def handover_case(listeners, systemd, pidconf):
             fails.append("the new master adopted %r, the old master listens on %r" % (adopted, want))
         if w.created_sockets and w.created_sockets[0] is None:
             fails.append("the new master bound new sockets instead of adopting the inherited descriptors")
-        if int(a.master_pid) != parent:
+        if not orphan and int(a.master_pid) != parent:
             fails.append("master_pid=%r in the new master" % (a.master_pid,))
         if bool(a.systemd) != bool(systemd):
             fails.append("systemd flag %r in the new master (old: %r)" % (a.systemd, systemd))
         files = w.pid_files()
-        if pidconf and files.get("g.pid.2") != SELF:
-            fails.append("the new master's pid is not in '<pidfile>.2': %r" % (files,))
-        if pidconf and files.get("g.pid") != parent:
-            fails.append("the old master's pid file was touched: %r" % (files,))
+        if not orphan:                 # (the promotion of an orphaned master is an event of the histories above: NoticeParent)
+            if pidconf and files.get("g.pid.2") != SELF:
+                fails.append("the new master's pid is not in '<pidfile>.2': %r" % (files,))
+            if pidconf and files.get("g.pid") != parent:
+                fails.append("the old master's pid file was touched: %r" % (files,))
         if w.outcome[0] not in ("done",):
             fails.append("the new master did not come up: %r" % (w.outcome,))
     finally:
@@ -806,14 +812,16 @@ def run_handover(ctx):
         names = [ctx.rng.choice(["/run/gv/%d.sock" % i, ("127.0.0.1", 8000 + i)]) for i in range(k)]
         listeners = list(zip(names, fds))
         pidconf = ctx.rng.random() < 0.6
-        fs = handover_case(listeners, systemd, pidconf)
+        orphan = trial % 3 == 2
+        fs = handover_case(listeners, systemd, pidconf, orphan)
         n += 1
-        ctx.count_case(("handover", tuple(fds), systemd, pidconf), nontrivial=True)
-        ctx.hist("handover", "systemd" if systemd else "gunicorn_fd")
+        ctx.count_case(("handover", tuple(fds), systemd, pidconf, orphan), nontrivial=True)
+        ctx.hist("handover", ("systemd" if systemd else "gunicorn_fd") + (" / old master already gone" if orphan else ""))
         for f in fs:
-            ctx.violation("exec hand-over: " + f, {"kind": "handover", "listeners": [[repr(a), b] for a, b in listeners],
-                                                   "listeners_raw": [[a if isinstance(a, str) else list(a), b] for a, b in listeners],
-                                                   "systemd": systemd, "pidconf": pidconf})
+            ctx.violation("exec hand-over%s: %s" % (" (the old master exited before the new one started)" if orphan else "", f),
+                          {"kind": "handover", "listeners": [[repr(a), b] for a, b in listeners],
+                           "listeners_raw": [[a if isinstance(a, str) else list(a), b] for a, b in listeners],
+                           "systemd": systemd, "pidconf": pidconf, "orphan": orphan})
     ctx.log("checked %d exec hand-overs (reexec child branch -> second Arbiter.start)" % n)
 
 
